@@ -159,6 +159,35 @@ func (s *Sched) yield(t *thread, site string) {
 	}
 }
 
+var typeNames = map[reflect.Type]string{}
+
+// typeName caches reflect.Type.String (it allocates; accesses are recorded millions of times).
+func typeName(t reflect.Type) string {
+	if s, ok := typeNames[t]; ok {
+		return s
+	}
+	s := t.String()
+	typeNames[t] = s
+	return s
+}
+
+type prefixedType struct {
+	prefix string
+	t      reflect.Type
+}
+
+var prefixedNames = map[prefixedType]string{}
+
+func typeNameP(prefix string, t reflect.Type) string {
+	k := prefixedType{prefix, t}
+	if s, ok := prefixedNames[k]; ok {
+		return s
+	}
+	s := prefix + typeName(t)
+	prefixedNames[k] = s
+	return s
+}
+
 func typeOf(base interface{}) string {
 	if base == nil {
 		return "global"
@@ -177,7 +206,7 @@ func (s *Sched) isSchedPoint(site string, accs []Acc) bool {
 		}
 		typ := "global"
 		if a.Base != nil {
-			typ = reflect.TypeOf(a.Base).String()
+			typ = typeName(reflect.TypeOf(a.Base))
 			if !s.cfg.AlwaysShared[typ] {
 				// other objects become scheduling points per site (HotSites) once an object of
 				// theirs is seen from two threads; promotion by type would turn every thread-local
@@ -221,7 +250,7 @@ func (s *Sched) record(t *thread, site string, accs []Acc, sched bool) {
 				continue
 			}
 			k = accKey{v.Pointer(), "*"}
-			typ = "object " + v.Type().String()
+			typ = typeNameP("object ", v.Type())
 		} else if a.Elem != 0 {
 			// elements of a slice / map: always fully recorded, keyed by the backing array or map
 			// header, so that an access through a local alias meets the accesses of the owner
@@ -236,7 +265,7 @@ func (s *Sched) record(t *thread, site string, accs []Acc, sched bool) {
 				a.Write = v.Len() < v.Cap() // append writes into the old array only if it has room
 			}
 			k = accKey{v.Pointer(), "[]"}
-			typ = "elements of " + v.Type().String()
+			typ = typeNameP("elements of ", v.Type())
 		} else if a.Base == nil {
 			k = accKey{0, a.Field}
 		} else {
@@ -246,7 +275,7 @@ func (s *Sched) record(t *thread, site string, accs []Acc, sched bool) {
 			}
 			ptr := v.Pointer()
 			k = accKey{ptr, a.Field}
-			typ = reflect.TypeOf(a.Base).String()
+			typ = typeName(v.Type())
 			if !s.cfg.AlwaysShared[typ] && !s.cfg.Promoted[typ] {
 				// supposedly thread-local object: only track which thread owns it
 				o, seen := s.owner[ptr]
